@@ -19,7 +19,7 @@ pub fn property() -> Property {
     Property {
         id: "C14",
         level: "exploration",
-        rule: "Exhaustive matrix of real TLS handshakes against local openssl servers (threads on 127.0.0.1; names mapped with the resolver hook H2) presenting fixture certificates: {leaf chained to the private CA, self-signed, unknown issuer, expired CA-signed leaf} x {URL host matches the certificate name, differs} x accept_invalid_certs {off,on} x accept_invalid_hostnames {off,on} x private CA added as root {no,yes} x path {direct https, CONNECT through a real loopback proxy thread, https proxy (TLS to the proxy AND nested TLS to the origin; the proxy's certificate is varied separately)} x where the flags/root were set {session, request, clone of the session, and a SIBLING request / the ORIGINAL session that must stay unaffected}. Oracle: truth table ok = (anchored or certs_off) and (in validity or certs_off) and (name ok or names_off or certs_off), evaluated with the flags of THAT request; safety (success => ok) is always judged, liveness (ok => success) for the CA->leaf topology on DNS names and whenever certs_off waives everything; the error kind of rejections is recorded; a rejected handshake must not have delivered the request to the server. Non-trivial: every cell; distinct = hash(cell).",
+        rule: "Exhaustive matrix of real TLS handshakes against local openssl servers (threads on 127.0.0.1; names mapped with the resolver hook H2) presenting fixture certificates: {leaf chained to the private CA, self-signed, unknown issuer, expired CA-signed leaf} x {URL host matches the certificate name, differs} x accept_invalid_certs {off,on} x accept_invalid_hostnames {off,on} x private CA added as root {no,yes} x path {direct https, CONNECT through a real loopback proxy thread, https proxy (TLS to the proxy AND nested TLS to the origin; the proxy's certificate is varied separately)} x where the flags/root were set {session, request, clone of the session, session/request with every flag first switched on and then set to its final value, and a SIBLING request / the ORIGINAL session that must stay unaffected}. Oracle: truth table ok = (anchored or certs_off) and (in validity or certs_off) and (name ok or names_off or certs_off), evaluated with the flags of THAT request; safety (success => ok) is always judged, liveness (ok => success) for the CA->leaf topology on DNS names and whenever certs_off waives everything; the error kind of rejections is recorded; a rejected handshake must not have delivered the request to the server. Non-trivial: every cell; distinct = hash(cell).",
         assumptions: &["OpenSSL (server side and native-tls client side) / rustls implement the checks they are asked to perform; fixtures are what their names say (verified with `openssl verify` when generated)", "the system trust store does not contain the private CA (cells 'root not added' would reveal it)"],
         min_nontrivial: |t| t.pick(300, 1_000),
         gens,
@@ -29,7 +29,7 @@ pub fn property() -> Property {
 }
 
 const CERTS: [&str; 4] = ["good", "selfsigned", "unknown", "expired"];
-const PLACEMENTS: [&str; 3] = ["session", "request", "clone"];
+const PLACEMENTS: [&str; 5] = ["session", "request", "clone", "session-toggled", "request-toggled"];
 
 fn direct_cells() -> u64 {
     (CERTS.len() * 2 * 2 * 2 * 2 * PLACEMENTS.len()) as u64
@@ -56,8 +56,8 @@ struct Cell {
 
 fn cell(index: u64) -> Cell {
     let mut i = index as usize;
-    let placement = PLACEMENTS[i % 3];
-    i /= 3;
+    let placement = PLACEMENTS[i % PLACEMENTS.len()];
+    i /= PLACEMENTS.len();
     let root_added = i % 2 == 1;
     i /= 2;
     let names_off = i % 2 == 1;
@@ -119,10 +119,41 @@ fn build(c: &Cell, url: &str, proxy: Option<ProxySettings>) -> Built {
             // sibling created AFTER from the same session
             Built { target: rb, unaffected: base.post(url) }
         }
-        _ => {
+        "clone" => {
             let mut cl = base.clone();
             apply_s(&mut cl);
             Built { target: cl.post(url), unaffected: base.post(url) }
+        }
+        "session-toggled" => {
+            // every flag is first switched on and then set to its final value: only the last call counts
+            let before = base.post(url);
+            let mut s = base;
+            // one flag gets its final value first; the other is switched on and then set to its
+            // final value afterwards (the first must not be disturbed by that)
+            if c.root_added {
+                s.add_root_certificate(tlsfix::load_cert("ca"));
+            }
+            if c.cert.len() % 2 == 0 {
+                s.danger_accept_invalid_hostnames(c.names_off);
+                s.danger_accept_invalid_certs(true);
+                s.danger_accept_invalid_certs(c.certs_off);
+            } else {
+                s.danger_accept_invalid_certs(c.certs_off);
+                s.danger_accept_invalid_hostnames(true);
+                s.danger_accept_invalid_hostnames(c.names_off);
+            }
+            Built { target: s.post(url), unaffected: before }
+        }
+        _ => {
+            let mut rb = if c.cert.len() % 2 == 1 {
+                base.post(url).danger_accept_invalid_hostnames(c.names_off).danger_accept_invalid_certs(true).danger_accept_invalid_certs(c.certs_off)
+            } else {
+                base.post(url).danger_accept_invalid_certs(c.certs_off).danger_accept_invalid_hostnames(true).danger_accept_invalid_hostnames(c.names_off)
+            };
+            if c.root_added {
+                rb = rb.add_root_certificate(tlsfix::load_cert("ca"));
+            }
+            Built { target: rb, unaffected: base.post(url) }
         }
     }
 }
@@ -185,7 +216,10 @@ fn run_pair(ctx: &mut Ctx, c: &Cell, built: Built, expected_target: bool, expect
     let saw_u = finish();
     judge(ctx, "sibling-or-original", expected_unaffected, live_u, &out_u, saw_u, &descr_u);
     ctx.count("sibling_checks", 1);
-    ctx.count(&format!("placement_{}", c.placement), 1);
+    ctx.count(&format!("placement_{}", c.placement.split('-').next().unwrap()), 1);
+    if c.placement.ends_with("toggled") {
+        ctx.count("placement_toggled", 1);
+    }
     ctx.nontrivial(format!("{path}{c:?}").as_bytes());
     ctx.sample(|| json!({"path": path, "cell": format!("{c:?}"), "target_expected_ok": expected_target, "target_outcome": out.error, "unaffected_expected_ok": expected_unaffected, "unaffected_outcome": out_u.error, "tls_backend": tlsfix::BACKEND}));
 }
@@ -243,7 +277,10 @@ fn run_connect_proxy(ctx: &mut Ctx, _rng: &mut Rng, index: u64) {
     judge(ctx, "sibling-or-original", truth(c.cert, c.name_matches, false, false, false), false, &out_u, saw_u, &|| format!("CONNECT via loopback proxy: cell {c:?} (unaffected request)"));
     ctx.count("path_connect_proxy", 1);
     ctx.count("sibling_checks", 1);
-    ctx.count(&format!("placement_{}", c.placement), 1);
+    ctx.count(&format!("placement_{}", c.placement.split('-').next().unwrap()), 1);
+    if c.placement.ends_with("toggled") {
+        ctx.count("placement_toggled", 1);
+    }
     ctx.nontrivial(format!("connect{c:?}").as_bytes());
     ctx.sample(|| json!({"path": "connect-proxy", "cell": format!("{c:?}"), "target_outcome": out.error, "unaffected_outcome": out_u.error}));
 }
@@ -301,7 +338,10 @@ fn run_https_proxy(ctx: &mut Ctx, _rng: &mut Rng, index: u64) {
     judge(ctx, "sibling-or-original", exp_u, false, &out_u, saw_u, &|| format!("https proxy (certificate {proxy_cert} addressed as {proxy_host}): cell {c:?} (unaffected request)"));
     ctx.count("path_https_proxy", 1);
     ctx.count("sibling_checks", 1);
-    ctx.count(&format!("placement_{}", c.placement), 1);
+    ctx.count(&format!("placement_{}", c.placement.split('-').next().unwrap()), 1);
+    if c.placement.ends_with("toggled") {
+        ctx.count("placement_toggled", 1);
+    }
     ctx.nontrivial(format!("httpsproxy{pkind}{c:?}").as_bytes());
     ctx.sample(|| json!({"path": "https-proxy", "proxy_certificate": proxy_cert, "proxy_addressed_as": proxy_host, "cell": format!("{c:?}"), "target_expected_ok": exp_t, "target_outcome": out.error}));
 }
